@@ -126,14 +126,21 @@ def gtf_lines(sc):
                         eattr += ' exon_id "%s";' % t["exon_ids"][k]
                     else:
                         key = (g["chr"], e[0], e[1], g["strand"])
+                        if fl.get("exon_ids_per_transcript"):
+                            # GENCODE has exons with the same coordinates and different ids in different transcripts
+                            key = key + (t["id"],)
                         if key not in exon_id_map:
                             exon_counter += 1
                             exon_id_map[key] = (fl.get("exon_id_fmt") or "E%d").replace("{chr}", g["chr"]) % exon_counter
                         eattr += ' exon_id "%s";' % exon_id_map[key]
                 lines.append("\t".join([g["chr"], src, "exon", str(e[0]), str(e[1]), ".", g["strand"], ".", eattr]))
                 if fl.get("cds") and e[1] - e[0] > 10:
+                    cattr = tattr
+                    if fl.get("cds_exon_ids") and "exon_id" in eattr:
+                        # ... and repeats the id of the exon on the CDS record inside it
+                        cattr = tattr + ' exon_id "%s";' % eattr.split('exon_id "')[1].split('"')[0]
                     lines.append("\t".join([g["chr"], src, "CDS", str(e[0] + 1), str(e[1] - 1), ".", g["strand"],
-                                            "0", tattr]))
+                                            "0", cattr]))
     return lines
 
 
